@@ -16,6 +16,8 @@ import AdaptixProofs.Lemmas.LayoutRoundTrip
 import AdaptixProofs.Lemmas.LayoutPlacement
 import AdaptixProofs.Lemmas.LayoutDumpExtra
 import AdaptixProofs.Lemmas.LayoutWitness
+import AdaptixModel.Layout.LocPred
+import AdaptixProofs.Props.C10
 
 namespace Adaptix.Layout.C03
 
@@ -988,6 +990,136 @@ theorem dump_load_roundtrip_witness (mode : DebugTrail) (strict : Bool) (pol : P
     (rtCrown_ids _ (by simp [wObj, Val.lookup]) (by simp [wObj, Val.lookup]) (by simp [wObj, Val.lookup]))
   refine ⟨out, h1, h2.trans ?_⟩
   simp [rtCrown, OutCrown.fieldIds, OutCrown.fieldIds.goD, OutCrown.fieldIds.goL, wObj, Val.lookup]
+
+/-! ## 8. Where skip / only / omit_default are evaluated: the full location stack
+
+    Sections 1–7 take the three filters as truth tables over the fields.  `Layout/LocPred.lean` models
+    `apply_lsc`, the helper that produces those tables from a `LocStackChecker`; the theorems below state which
+    table that is, in the words of the predicate documentation (`specMatches`, C10): the predicate is asked
+    about the location stack of the *request* extended by the field — so a model that is reached as a field of
+    another model (directly or through a container) is filtered by patterns that name its owners. -/
+
+section FullStack
+open Adaptix.Pred
+
+/-- **The filters see the whole location stack.**  For every accepted predicate expression (strings, classes,
+    `P` chains of any length, combinators), every request stack and every field location, `apply_lsc` raises
+    nothing and answers the documented meaning of the predicate on `request.loc_stack + (field location,)`. -/
+theorem filter_checked_on_full_stack (W : World) (e : Expr) (c : Checker) (req : LocStack) (floc : Loc)
+    (hc : createChecker W e = .ok c) :
+    applyLsc W req c floc = .ok (specMatches W e (req ++ [floc])) :=
+  Adaptix.Pred.C10.checker_iff_spec W e c (req ++ [floc]) hc (by simp)
+
+/-- the truth table handed to the path rule / the sieve maker is the specification on the full stack -/
+theorem filter_table_is_spec (W : World) (dir : Dir) (e : Expr) (c : Checker) (req : LocStack)
+    (typeOf : String → Obj) (hc : createChecker W e = .ok c) (f : Field) :
+    lscPred W dir req typeOf c f = specMatches W e (req ++ [fieldToLoc dir f.id (typeOf f.id)]) := by
+  simp [lscPred, filter_checked_on_full_stack W e c req _ hc]
+
+/-- **A location pattern of k elements used as a filter matches the last k locations of the full stack**:
+    the k-th from last is the (k-2)-th location *above* the owning model. -/
+theorem pattern_filter_matches_tail (W : World) (cs : List Checker) (req : LocStack) (floc : Loc)
+    (hw : ∀ c ∈ cs, c.wf = true) :
+    applyLsc W req (.locStackEnd cs) floc = .ok true ↔
+      ∃ pre tail, req ++ [floc] = pre ++ tail ∧ tail.length = cs.length ∧
+        ∀ j (h : j < cs.length), check W cs[j] (pre ++ tail.take (j + 1)) = .ok true :=
+  Adaptix.Pred.C10.chain_matches_tail W cs (req ++ [floc]) hw (by simp)
+
+/-- **`P[Encl].owner.field` reads the location that encloses the owning model.**  For a model requested at
+    `pre ++ [encl, owner]` (`owner` = the field / container argument holding the model, `encl` = what holds
+    that), a three-element pattern selects the field iff its first element accepts the stack up to `encl`, the
+    second the stack up to `owner`, the third the whole stack.  (No side condition: holds for ill-formed
+    element checkers too.) -/
+theorem three_element_pattern_reads_enclosing_location (W : World) (c1 c2 c3 : Checker) (pre : LocStack)
+    (encl owner floc : Loc) :
+    applyLsc W (pre ++ [encl, owner]) (.locStackEnd [c1, c2, c3]) floc = .ok true ↔
+      check W c1 (pre ++ [encl]) = .ok true ∧ check W c2 (pre ++ [encl, owner]) = .ok true ∧
+        check W c3 (pre ++ [encl, owner, floc]) = .ok true := by
+  have e0 : reversedSlice (pre ++ [encl, owner] ++ [floc]) 0 = pre ++ [encl, owner, floc] := by
+    simp only [reversedSlice]
+    rw [List.take_of_length_le (by simp)]
+    simp
+  have e1 : reversedSlice (pre ++ [encl, owner] ++ [floc]) 1 = pre ++ [encl, owner] := by
+    simp only [reversedSlice]
+    exact List.take_left' (by simp)
+  have e2 : reversedSlice (pre ++ [encl, owner] ++ [floc]) 2 = pre ++ [encl] := by
+    have h : pre ++ [encl, owner] ++ [floc] = (pre ++ [encl]) ++ [owner, floc] := by simp
+    simp only [reversedSlice]
+    rw [h]
+    exact List.take_left' (by simp)
+  have hl : ¬ (pre ++ [encl, owner] ++ [floc]).length < 3 := by simp
+  simp only [applyLsc, check, checkEnd, List.length_cons, List.length_nil, hl, if_false, e0, e1, e2,
+    List.reverse_cons, List.reverse_nil, List.nil_append, List.cons_append, pyAll]
+  cases check W c3 (pre ++ [encl, owner, floc]) with
+  | error x => simp [bind, Except.bind]
+  | ok b3 =>
+    cases b3 <;> simp [bind, Except.bind, pure, Except.pure]
+    cases check W c2 (pre ++ [encl, owner]) with
+    | error x => simp
+    | ok b2 =>
+      cases b2 <;> simp
+      cases check W c1 (pre ++ [encl]) with
+      | error x => simp
+      | ok b1 => cases b1 <;> simp
+
+/-- **skip by location pattern**: a field the `skip` predicate matches *on the full stack* has no path — in the
+    documented rule and in the mapping step of the code. -/
+theorem skip_on_full_stack_hides_field (W : World) (dir : Dir) (e : Expr) (c : Checker) (req : LocStack)
+    (typeOf : String → Obj) (sch : Schema) (style : Style → String → String) (fields : List Field)
+    (targets : List String) (f : Field) (hc : createChecker W e = .ok c)
+    (hs : sch.skip = lscPred W dir req typeOf c)
+    (hm : specMatches W e (req ++ [fieldToLoc dir f.id (typeOf f.id)]) = true) :
+    pathOf dir sch style fields targets f = none ∧ mapField dir sch style fields f = none := by
+  have hskip : sch.skip f = true := by rw [hs, filter_table_is_spec W dir e c req typeOf hc f, hm]
+  refine ⟨skip_over_only dir sch style fields targets f hskip, ?_⟩
+  unfold mapField
+  simp only [hskip]
+  split <;> simp
+
+/-- **only by location pattern**: a field the `only` predicate does not match on the full stack has no path. -/
+theorem only_on_full_stack_filters (W : World) (dir : Dir) (e : Expr) (c : Checker) (req : LocStack)
+    (typeOf : String → Obj) (sch : Schema) (style : Style → String → String) (fields : List Field)
+    (targets : List String) (f : Field) (hc : createChecker W e = .ok c)
+    (ho : sch.only = lscPred W dir req typeOf c)
+    (hm : specMatches W e (req ++ [fieldToLoc dir f.id (typeOf f.id)]) = false) :
+    pathOf dir sch style fields targets f = none ∧ mapField dir sch style fields f = none := by
+  have honly : sch.only f = false := by rw [ho, filter_table_is_spec W dir e c req typeOf hc f, hm]
+  refine ⟨only_filters dir sch style fields targets f honly, ?_⟩
+  unfold mapField
+  simp only [honly]
+  split <;> simp
+
+/-- **omit_default by location pattern**: the sieve maker puts a sieve on the leaf of a defaulted field iff the
+    `omit_default` predicate matches on the full stack. -/
+theorem omit_default_on_full_stack (W : World) (dir : Dir) (e : Expr) (c : Checker) (req : LocStack)
+    (typeOf : String → Obj) (sch : Schema) (fields : List Field) (p : Path) (f : Field) (d : Val)
+    (hc : createChecker W e = .ok c) (hod : sch.omitDefault = lscPred W dir req typeOf c)
+    (hf : fields.find? (fun g => g.id == f.id) = some f) (hd : f.default = some d) :
+    makeSieves sch fields [(p, .field f.id)] =
+      if specMatches W e (req ++ [fieldToLoc dir f.id (typeOf f.id)]) then [(p, d)] else [] := by
+  have h : sch.omitDefault f = specMatches W e (req ++ [fieldToLoc dir f.id (typeOf f.id)]) := by
+    rw [hod, filter_table_is_spec W dir e c req typeOf hc f]
+  simp only [makeSieves, List.filterMap_cons, List.filterMap_nil, hf, hd, h]
+  split <;> simp_all
+
+/-! non-vacuity (objects of `C10.demoWorld`: 0 = model Service, 3 = model Audit, 2 = model Credentials; the
+    identifiers of that world are `name` and `age`): `skip=P[Service].name.age` hides field `age` of the
+    Credentials held by field `name` of Service, and keeps it when the same Credentials model is held by field
+    `name` of Audit; on the stack cut down to [owner, field] the pattern would never match. -/
+
+def nestPattern : Expr := .getattr (.getattr (.getitem .P (.ty 0)) "name") "age"
+def nestReqService : LocStack := [{ cls := .typeHintLoc, type := 0 }, { cls := .inputFieldLoc, type := 2, fieldId := "name" }]
+def nestReqAudit : LocStack := [{ cls := .typeHintLoc, type := 3 }, { cls := .inputFieldLoc, type := 2, fieldId := "name" }]
+
+example : ∃ c, createChecker C10.demoWorld nestPattern = .ok c ∧
+    applyLsc C10.demoWorld nestReqService c (fieldToLoc .inp "age" 9) = .ok true ∧
+    applyLsc C10.demoWorld nestReqAudit c (fieldToLoc .inp "age" 9) = .ok false ∧
+    applyLsc C10.demoWorld (nestReqService.drop 1) c (fieldToLoc .inp "age" 9) = .ok false :=
+  ⟨_, rfl, by decide, by decide, by decide⟩
+
+example : specMatches C10.demoWorld nestPattern (nestReqService ++ [fieldToLoc .inp "age" 9]) = true := by decide
+
+end FullStack
 
 /-! ## 7. Non-vacuity: concrete programs evaluated by the kernel -/
 
